@@ -210,7 +210,7 @@ def globalized_step(u):
     u.ensure(True, "ran")
 
 
-@unit("C05._compute_xn.float64", ["C05"], [SS + "StepResult._compute_xn"])
+@unit("C05._compute_xn.float64", ["C05"], [SS + "StepResult._compute_xn"], config={"timeout_ms": 120000})
 def compute_xn_fp(u):
     """the clip re-posed in IEEE double arithmetic (round-to-nearest-even): 'exactly inside the bounds' must not
     depend on real-number identities such as x - (x - lb) = lb.  Inputs: no NaN; x and dx finite; lb <= ub
